@@ -196,6 +196,11 @@ func runC19(res *lib.Result, tier string, seed int64, args []string) error {
 			}
 			files[fmt.Sprintf("f%d.lua", fi)] = src
 		}
+		if !many && nf >= 2 && nf <= 3 {
+			// a global table declared in one file gets a function member in another file
+			files["f0.lua"] += fmt.Sprintf("GTw%d = {}\nfunction GTw%d.own%d() end\n", wi, wi, wi)
+			files["f1.lua"] += fmt.Sprintf("function GTw%d.cross%d(a, b)\n  return a\nend\n", wi, wi)
+		}
 		dir := lib.ScratchDir(fmt.Sprintf("c19w%d", wi))
 		if err := lib.WriteWorkspace(dir, files); err != nil {
 			return err
@@ -282,6 +287,9 @@ func runC19(res *lib.Result, tier string, seed int64, args []string) error {
 					case named && q.byAssign:
 						res.HitKnown("C19-K2", "a function-valued variable / member declared by assigning a function expression ('local f = function', 'g = function', 't.f = function', '{ f = function }'): its outline range is the function expression, which starts after the declaring identifier", caseText)
 						res.Dist("hit.C19-K2")
+					case !named && q.cls == "member" && strings.Contains(want, ".") && !strings.Contains("\n"+src, "\n"+strings.FieldsFunc(want, func(c rune) bool { return c == '.' || c == ':' })[0]+" = "):
+						res.HitKnown("C19-K3", "a function member added to a global table that is declared in ANOTHER file ('GT = {}' in a.lua, 'function GT.f() end' in b.lua) is missing from the outline of the file that declares the member (the members hang on the table's declaration)", caseText)
+						res.Dist("hit.C19-K3")
 					case named:
 						res.AddViolation("impl-vs-spec", "the outline entry of a declaration does not contain the declaring identifier", caseText, false)
 					default:
